@@ -388,6 +388,7 @@ CERTIFICATIONS = TStruct("certs", "ctap2::get_info::Certifications", [
     F("FIPS-CMVP-2-PHY", "fips_cmpv2_phy", TUInt("u8")),
     F("FIPS-CMVP-3-PHY", "fips_cmpv3_phy", TUInt("u8")),
 ], ctor=("decode",))
+CERTIFICATIONS.feature = GIF
 
 GI_RESP = TStruct("gi", "ctap2::get_info::Response", [
     F(0x01, "versions", TList(VERSION, 4), required=True),
